@@ -26,8 +26,11 @@ func TestC11(t *testing.T) {
 		"virtual time: 'promptly' means at the quiescent point right after the GOAWAY was delivered", "crypto/tls over the in-memory transport for the RoundTrip level")
 	// RoundTrip pools its per-request Ctx objects, each with a timer and a channel that belong to the bubble they were
 	// created in; a pooled Ctx must not travel into a later bubble, so the pool hook withholds them (always legal for a sync.Pool)
-	http2.VerifSetPoolHook(func(kind string, obj any, acquire bool) bool { return kind == "clientctx" && !acquire })
-	defer http2.VerifSetPoolHook(nil)
+	http2.VerifSetPoolHook(func(kind string, obj any, acquire bool) bool {
+		poisonHook(kind, obj, acquire)
+		return kind == "clientctx" && !acquire
+	})
+	defer http2.VerifSetPoolHook(poisonHook)
 	n := r.Pick(400, 25000)
 	for i := 0; i < n; i++ {
 		id := fmt.Sprintf("y%d", i)
